@@ -8,8 +8,8 @@ CLI_PROPS = {"C13", "C14", "C15", "C16", "C17", "C18", "C19", "C20"}
 
 # which sources feed which property (order = order of execution)
 PLAN = {
-    "C01": ["exprparens", "trivia", "calls", "nest", "types", "block", "strings", "literals", "corpus", "sortrequires"],
-    "C02": ["exprparens", "trivia", "calls", "nest", "types", "block", "corpus"],
+    "C01": ["exprparens", "trivia", "calls", "nest", "types", "block", "strings", "literals", "corpus", "sortrequires", "interp"],
+    "C02": ["exprparens", "trivia", "calls", "nest", "types", "block", "corpus", "interp"],
     "C03": ["trivia", "block", "exprparens", "corpus"],
     "C04": ["strings", "literals", "corpus"],
     "C05": ["exprparens"],
@@ -18,8 +18,8 @@ PLAN = {
     "C11": ["calls", "strings", "corpus"],
     "C12": ["sortrequires", "corpus"],
     "C10": ["layout", "trivia", "corpus"],
-    "C06": ["exprparens", "trivia", "calls", "nest", "types", "block", "sortrequires", "corpus"],
-    "C07": ["nest", "exprparens", "trivia", "calls", "block", "strings", "literals", "corpus", "invalid"],
+    "C06": ["exprparens", "trivia", "calls", "nest", "types", "block", "sortrequires", "corpus", "interp"],
+    "C07": ["nest", "exprparens", "trivia", "calls", "block", "strings", "literals", "corpus", "invalid", "interp"],
 }
 
 LUAU_CTX = {"compound", "ifexp_then", "ifexp_else"}
@@ -208,6 +208,20 @@ def src_invalid(tier, seed):
     return cases, st
 
 
+def src_interp(tier, seed):
+    """Luau interpolated strings: piece sequences x positions (raw source, judged by re-parse / meaning / second pass)."""
+    raw, st = tlc_generate("MC_Interp", "MC_Interp_%s.cfg" % tier, "g_interp_" + tier)
+    raw.sort(key=lambda c: c["src"])
+    cases = []
+    for i, c in enumerate(raw):
+        c["id"] = "ip%d" % i
+        c["meta"]["sig"] = "interp:%s:%s" % (c["meta"]["pos"], "+".join(sorted(set(c["meta"]["pieces"]))))
+        c["sweep"] = {"column_width": [120, 16], "call_parentheses": ["Always", "None"]}
+        c["want"] = ["reformat", "src"]
+        cases.append(c)
+    return cases, st
+
+
 def src_types(tier, seed):
     raw, st = tlc_generate("MC_Types", "MC_Types_%s.cfg" % tier, "g_types_" + tier)
     raw.sort(key=lambda c: c["src"])
@@ -262,6 +276,7 @@ def src_literals(tier, seed):
 SOURCES = {
     "types": src_types,
     "invalid": src_invalid,
+    "interp": src_interp,
     "nest": src_nest,
     "calls": src_calls,
     "sortrequires": src_sortrequires,
